@@ -17,6 +17,9 @@ type propCfg struct {
 	// (e.g. an indicator with no compared position).
 	RequirePositive string
 	RequireCount    int
+	// CLI lists command line tools of the repository (directories under cmd/)
+	// that the parent builds and the child executes end to end.
+	CLI []string
 }
 
 func tierIdx(t string) int {
